@@ -157,8 +157,10 @@ def outputs_variant(v, ec, fam):
                                "ValueError: bad value %d" % fam]}]
     if v == 4:
         return [{"output_type": "display_data", "metadata": {"isolated": True, "image/png": {"width": 10}},
+                 # (the payload holds objects with an "op" member - a JSON Patch shown as data -: not diff entries)
                  "data": {"application/json": {"a": [1, 2, {"b": None}], "c": 1.5, "d": [[1, 2], [3]],
-                                               "layers": [[0, 1], {"name": "x", "visible": True}]},
+                                               "layers": [[0, 1], {"name": "x", "visible": True}],
+                                               "patch": [{"op": "replace", "path": "/a", "value": 1}, {"op": "load"}]},
                           "text/html": "<b>bold</b>\n<i>x</i>", "text/plain": "short"}},
                 {"output_type": "stream", "name": "stderr", "text": "warning: something happened\n"}]
     if v == 5:      # "re-run" of variant 2: pointer and image differ
@@ -190,9 +192,10 @@ def retyped(x):
 
 
 CELL_MD = {0: {}, 1: {"collapsed": True, "scrolled": False, "slide_order": 1},
-           2: {"tags": ["a", "b"], "nested": {"k": [1, {"z": None}], "f": 1.5}, "collapsed": False},
+           # (variants 1, 2 and 3 give the transient key "scrolled" three different values)
+           2: {"tags": ["a", "b"], "nested": {"k": [1, {"z": None}], "f": 1.5}, "collapsed": False, "scrolled": True},
            3: {"tags": ["a", "slow", "gpu", "shared", "reviewed", "b"], "nested": {"k": [1, {"z": None}], "f": 1.5},
-               "collapsed": False},
+               "collapsed": False, "scrolled": "auto"},
            # (variants 3 and 4 both add the tag "slow", at different places of the list)
            4: {"tags": ["a", "shared", "b", "slow"], "nested": {"k": [1, {"z": None}], "f": 2.5}, "collapsed": True},
            # left behind by an earlier conflicted merge (metadata strategy record-conflict)
@@ -203,7 +206,8 @@ NB_MD = {0: {},
          1: {"kernelspec": {"display_name": "Python 3", "language": "python", "name": "python3"},
              "language_info": {"name": "python", "version": "3.8.1"}},
          2: {"kernelspec": {"display_name": "Python 3", "language": "python", "name": "python3"},
-             "custom": {"list": [[1, 2], [3]], "flag": True, "objs": [{"a": 1}, {"a": 2}], "mixed": [[1], {"k": 1}, 2]}},
+             "custom": {"list": [[1, 2], [3]], "flag": True, "objs": [{"a": 1}, {"a": 2}], "mixed": [[1], {"k": 1}, 2],
+                        "step": {"op": "load", "key": "k"}}},
          # the product of an earlier conflicted merge, and the same after the conflict was resolved by hand
          3: {"kernelspec": {"display_name": "Python 3", "language": "python", "name": "python3"}, "title": "draft",
              "nbdime-conflicts": {"local_diff": [{"op": "replace", "key": "title", "value": "mine"}],
